@@ -86,7 +86,7 @@ CHECKS = {
          "model's, and by observing that every real stream is in the image of the flattening on which the theorem speaks. NOT proved: "
          "that the tokenizers' output spells the input (1.5k-line backtracking tokenizer, C twin): validated by the round-trip oracle "
          "on table-driven + generated inputs (both tokenizers, skip_style_tags, URL context) and on text assigned through setters."
-         " TOKENIZER FRAGMENTS (coq/HeadingFrag.v: only markers '=' and newline - plain text and section headings incl. the depth-limited recursion of _handle_heading_end; coq/EntityFrag.v: only markers & # ; < ! - > - HTML entities and HTML comments in running text, the same theorems for every marker/entity table and size limit; coq/MixFrag.v: both combined, headings whose titles contain entities): on these sub-languages both tokenizers ARE modelled; proved for EVERY string and depth limit: the model's tree renders to the input and the proved Builder applied to the model's token stream returns a tree rendering to the input "
+         " TOKENIZER FRAGMENTS (coq/HeadingFrag.v: only markers '=' and newline - plain text and section headings incl. the depth-limited recursion of _handle_heading_end; coq/EntityFrag.v: only markers & # ; < ! - > - HTML entities and HTML comments in running text, the same theorems for every marker/entity table and size limit; coq/MixFrag.v: all combined on multi-line documents - headings whose titles contain entities and comments, comments spanning lines): on these sub-languages both tokenizers ARE modelled; proved for EVERY string and depth limit: the model's tree renders to the input and the proved Builder applied to the model's token stream returns a tree rendering to the input "
          "(C01 end to end on the fragment); tied to BOTH real tokenizers by comparing token lists on every string over {=,\\n,a} up to length 9, random fragment strings and the MAX_DEPTH neighbourhood.",
     design_ref="DESIGN.md section 5, C01",
     note="Trusted: Coq kernel; extraction + driver; harness; crash-isolating workers. The tokenizer half is testing, not proof. No axioms.",
@@ -97,7 +97,7 @@ CHECKS = {
          "each node being consumed whatever follows it. NOT proved: that the tokenizers never raise and always emit such streams: "
          "validated by parsing table-driven, generated and memo-collision inputs with both tokenizers in crash-isolating workers "
          "(exception, hang, killed interpreter = failure) and by the Builder model tie on every real stream."
-         " TOKENIZER FRAGMENTS (coq/HeadingFrag.v: only markers '=' and newline - plain text and section headings incl. the depth-limited recursion of _handle_heading_end; coq/EntityFrag.v: only markers & # ; < ! - > - HTML entities and HTML comments in running text, the same theorems for every marker/entity table and size limit; coq/MixFrag.v: both combined, headings whose titles contain entities): on these sub-languages both tokenizers ARE modelled; the model is a total function and the Builder accepts its stream for every string and depth limit (C02_fragment_total); tied to both tokenizers by correspondence.",
+         " TOKENIZER FRAGMENTS (coq/HeadingFrag.v: only markers '=' and newline - plain text and section headings incl. the depth-limited recursion of _handle_heading_end; coq/EntityFrag.v: only markers & # ; < ! - > - HTML entities and HTML comments in running text, the same theorems for every marker/entity table and size limit; coq/MixFrag.v: all combined on multi-line documents - headings whose titles contain entities and comments, comments spanning lines): on these sub-languages both tokenizers ARE modelled; the model is a total function and the Builder accepts its stream for every string and depth limit (C02_fragment_total); tied to both tokenizers by correspondence.",
     design_ref="DESIGN.md section 5, C02",
     note="Trusted: as C01. The tokenizer half is testing, not proof. No axioms.",
     technique="Coq proof of Builder totality on well-formed streams and of totality on the modelled tokenizer fragment + correspondence + totality oracle (testing) for the rest of the tokenizers"),
@@ -119,7 +119,7 @@ CHECKS = {
          "(lower() in TABLE) and the C lookup (ASCII strcmp) agree. NOT proved: equality of the token streams: checked by differential "
          "execution on table-driven inputs (every scheme/tag/entity/brace-run form) and the generated stream, on new tokenizer instances and "
          "on instances that have tokenized up to five other inputs before (a difference is reported with the history)."
-         " TOKENIZER FRAGMENTS (coq/HeadingFrag.v: only markers '=' and newline - plain text and section headings incl. the depth-limited recursion of _handle_heading_end; coq/EntityFrag.v: only markers & # ; < ! - > - HTML entities and HTML comments in running text, the same theorems for every marker/entity table and size limit; coq/MixFrag.v: both combined, headings whose titles contain entities): on these sub-languages both tokenizers ARE modelled; each tokenizer is tied to the model instantiated with ITS OWN MAX_DEPTH, and the two instances are proved equal for every string (C04_fragment_streams_agree).",
+         " TOKENIZER FRAGMENTS (coq/HeadingFrag.v: only markers '=' and newline - plain text and section headings incl. the depth-limited recursion of _handle_heading_end; coq/EntityFrag.v: only markers & # ; < ! - > - HTML entities and HTML comments in running text, the same theorems for every marker/entity table and size limit; coq/MixFrag.v: all combined on multi-line documents - headings whose titles contain entities and comments, comments spanning lines): on these sub-languages both tokenizers ARE modelled; each tokenizer is tied to the model instantiated with ITS OWN MAX_DEPTH, and the two instances are proved equal for every string (C04_fragment_streams_agree).",
     design_ref="DESIGN.md section 5, C04",
     note="Trusted: the table generator (import + #define/array parsing, fail-closed); stream equality is testing. No axioms.",
     technique="Coq proof over generated constant tables (vm_compute) + lookup equivalence lemma + proved stream equality on the modelled tokenizer fragment (correspondence to both tokenizers) + differential execution of both tokenizers (testing) elsewhere"),
@@ -129,7 +129,7 @@ CHECKS = {
          "top-level or nested, has an empty or two adjacent Text nodes; with the Builder theorem this reduces canonical trees to canonical "
          "streams. NOT proved: that the tokenizers only emit canonical streams: validated on both tokenizers' streams and on every node "
          "list of every parsed tree over the shared input stream."
-         " TOKENIZER FRAGMENTS (coq/HeadingFrag.v: only markers '=' and newline - plain text and section headings incl. the depth-limited recursion of _handle_heading_end; coq/EntityFrag.v: only markers & # ; < ! - > - HTML entities and HTML comments in running text, the same theorems for every marker/entity table and size limit; coq/MixFrag.v: both combined, headings whose titles contain entities): on these sub-languages both tokenizers ARE modelled; the text-buffer discipline yields a canonical tree for EVERY string and depth limit (C14_fragment_canonical); tied to both tokenizers by correspondence.",
+         " TOKENIZER FRAGMENTS (coq/HeadingFrag.v: only markers '=' and newline - plain text and section headings incl. the depth-limited recursion of _handle_heading_end; coq/EntityFrag.v: only markers & # ; < ! - > - HTML entities and HTML comments in running text, the same theorems for every marker/entity table and size limit; coq/MixFrag.v: all combined on multi-line documents - headings whose titles contain entities and comments, comments spanning lines): on these sub-languages both tokenizers ARE modelled; the text-buffer discipline yields a canonical tree for EVERY string and depth limit (C14_fragment_canonical); tied to both tokenizers by correspondence.",
     design_ref="DESIGN.md section 5, C14",
     note="Trusted: as C01. The tokenizer half is testing, not proof. No axioms.",
     technique="Coq proof (canonical tokens => canonical tree, induction on stream length; canonical output of the modelled tokenizer fragment) + correspondence + canonical-form oracle (testing) for the rest of the tokenizers"),
